@@ -400,8 +400,9 @@ End Gen.
 
 (* ------------------------------------------------------------------ *)
 (* the domain of the soundness theorem: everything except the known findings *)
+(* the argument of Unpack[...] is a tuple type: Tuple[T, ...] or a fixed tuple (whose own shape ty_ok checks) *)
 Definition unpack_inner_ok (t: ty) : bool :=
-  match t with TList true _ => true | TTuple a => no_unpack a | _ => false end.
+  match t with TList true _ => true | TTuple _ => true | _ => false end.
 
 Fixpoint ty_ok (fuel: nat) (E: env) (cur base: bool) (t: ty) {struct fuel} : bool :=
   match fuel with
@@ -412,8 +413,8 @@ Fixpoint ty_ok (fuel: nat) (E: env) (cur base: bool) (t: ty) {struct fuel} : boo
     | TList keep t' => (keep || Bool.eqb cur base) && ty_ok n E cur base t'      (* KF schema-nt-override-in-containers *)
     | TSet t' => Bool.eqb cur base && ty_ok n E cur base t'
     | TTuple args =>
-        (* fixed tuples; at most one Unpack[...] whose argument is Tuple[T, ...] or a fixed tuple without Unpack
-           (deeper nestings of Unpack are covered by the K6 theorems only) *)
+        (* fixed tuples; at most one Unpack[...] per level (as typing requires), whose argument is Tuple[T, ...]
+           or again a fixed tuple of this kind (any nesting depth) *)
         forallb (fun a => ty_ok n E cur base (snd a)) args &&
         (no_unpack args ||
          match find_unpack args with
